@@ -64,7 +64,7 @@ claim("C27", "e2_wakesim",
   "Trusted: shuttle's scheduler, the stub tick closure and oracles. Sequentially consistent interleavings at the yield points only (Miri leg in thorough tier samples weak-memory behaviours); <=2 wakers/senders, <=2 wakes or 3 items each; AtomicWaker/tokio mpsc treated as atomic between yield points; run_available_sync/run_tick_sync covered only through the shared run_tick.",
   "DESIGN.md §5 C27, §13")
 
-E4NOTE = 'Trusted: hand-written plain-Rust specs per corpus flow, the SimStream/recording stubs and simulated network. Production *embedded* back end only (deploy/trybuild process and network glue not run); program space = the hand-written corpus + seeded composer chains + a matrix composer (43 operator families x 10 location kinds / batch sources incl. atomic regions, tee'd (push-side) batches, Tick::cycle values, deferred values, across_ticks, bounded top-level collections x 4 input typings TotalOrder/NoOrder x ExactlyOnce/AtLeastOnce = 456 generated flows) + a type-driven table of 94 producer x transformer flows for C33 (oracle applies exactly what the collection's bound kind claims) + flows whose futures suspend inside a tick; inputs <= ~12 items. Sampled, not exhaustive.'
+E4NOTE = 'Trusted: hand-written plain-Rust specs per corpus flow, the SimStream/recording stubs and simulated network. Production *embedded* back end only (deploy/trybuild process and network glue not run); program space = the hand-written corpus + seeded composer chains + a matrix composer (43 operator families x 10 location kinds / batch sources incl. atomic regions, teed (push-side) batches, Tick::cycle values, deferred values, across_ticks, bounded top-level collections x 4 input typings TotalOrder/NoOrder x ExactlyOnce/AtLeastOnce = 456 generated flows) + a type-driven table of 94 producer x transformer flows for C33 (oracle applies exactly what the collection bound kind claims) + flows whose futures suspend inside a tick; inputs <= ~12 items. Sampled, not exhaustive.'
 claim("C28", "e4_hydroprod",
   "deterministic simulation: Hydro flows compiled by the production code generator (generate_embedded) run under seeded tick partitions of their inputs (all-at-once, singletons, random cuts, empty ticks), seeded location order and network delivery schedules admitted by the channel guarantees; final outputs compared across schedules and against a plain-Rust spec; bounded-liveness idle check",
   "Seeded exploration of tick partitions / location orders / network schedules around production-generated code for a corpus of safe top-level flows plus composer-generated flows (schedule independence only).",
